@@ -316,7 +316,12 @@ class Interval(Duration, Generic[_T]):
         while op(start, end):
             yield start
 
-            start = getattr(self.start, method)(**{unit: i})
+            try:
+                start = getattr(self.start, method)(**{unit: i})
+            except (OverflowError, ValueError):
+                # The next value is not representable,
+                # so it lies beyond the end.
+                return
 
             i += amount
 
